@@ -2,7 +2,7 @@ CONSTANTS
  Members = {"m1","m2"}
  Topics = {"t1","t2"}
  NParts <- NP21
- SubsChoices = {{"t2"},{"t1","t2"}}
+ SubsChoices = {{"t2"}}
  CommitTP <- CTP
  SessChoices = {2}
  RebT = 2
